@@ -47,6 +47,7 @@ class Res:
         self.bookings = list(bookings)    # [(startDt, seconds)]
         self.limits = list(limits)        # [(kind 'd'|'w', seconds)]
         self.rate = None
+        self.eff_text = None    # efficiency literal to render instead of eff (e.g. "0.0": the implementation treats 0 as 1, D19)
         self.kids = []
 
 
@@ -190,7 +191,9 @@ class Proj:
         def rres(r, ind):
             L.append('%sresource %s "%s" {' % (ind, r.name, r.name))
             i2 = ind + "  "
-            if r.eff != 1:
+            if r.eff_text is not None:
+                L.append("%sefficiency %s" % (i2, r.eff_text))
+            elif r.eff != 1:
                 L.append("%sefficiency %s" % (i2, fmt_eff(r.eff)))
             if r.rate is not None:
                 L.append("%srate %s" % (i2, r.rate))
@@ -385,7 +388,12 @@ def chain_subslot(rng, n):
                 gap = rng.choice([g for g in (G // 2, G, 2 * G, 900, 1800, 420) if g % 60 == 0]) if rng.random() < 0.4 else 0
                 deps.append((d, False, gap))
             prio = rng.choice([None, None, 400, 600, 700])
-            ts.append(p.add_task("t%d" % k, effort=eff_secs, alloc=[r], deps=deps, prio=prio))
+            st = None
+            if not deps and rng.random() < 0.15:
+                # the user's own start, at an instant inside a slot
+                st = p.start + timedelta(days=rng.randint(0, 3), hours=rng.choice([9, 10, 13, 14]),
+                                         seconds=rng.choice([G // 2, G // 4, G // 3, 600, 0]) // 60 * 60)
+            ts.append(p.add_task("t%d" % k, effort=eff_secs, alloc=[r], deps=deps, prio=prio, start=st))
         out.append(("sub%04d" % i, p))
     return out
 
@@ -407,7 +415,7 @@ def core_dialect(rng, n, max_tasks=7):
     out = []
     for i in range(n):
         G = rng.choice([3600, 3600, 1800, 900, 600, 300])
-        start = datetime(2024, 1, 1) + timedelta(days=rng.randrange(0, 14))
+        start = datetime(2024, 1, 1) + timedelta(days=rng.randrange(0, 14), hours=rng.choice([0, 0, 0, 9, 13, 14, 15]))
         p = Proj(start=start, G=G, length="+6w")
         nres = rng.randint(1, 3)
         rs = []
@@ -421,7 +429,10 @@ def core_dialect(rng, n, max_tasks=7):
             if rng.random() < 0.3:
                 d0 = start.replace(hour=0, minute=0) + timedelta(days=rng.randint(1, 9))
                 leaves.append((d0, d0 + timedelta(days=rng.randint(1, 3))))
-            rs.append(p.add_res("r%d" % k, eff=eff, hours=hours, leaves=leaves))
+            lim = []
+            if rng.random() < 0.25:
+                lim.append(("d", 3600 * rng.choice([2, 3, 4, 6])) if rng.random() < 0.7 else ("w", 3600 * rng.choice([8, 10, 16])))
+            rs.append(p.add_res("r%d" % k, eff=eff, hours=hours, leaves=leaves, limits=lim))
         nt = rng.randint(2, max_tasks)
         ts = []
         for k in range(nt):
@@ -486,6 +497,17 @@ def calendars(rng, n, zones=None):
         if rng.random() < 0.2:
             v0 = start.replace(hour=0) + timedelta(days=rng.randint(1, 8))
             gl.append((v0, v0 + timedelta(days=1) if rng.random() < 0.5 else None))
+        if rng.random() < 0.3:
+            # a short free period inside a longer one (ending earlier), or two overlapping ones, in either order of declaration
+            v0 = start.replace(hour=0) + timedelta(days=rng.randint(1, 5))
+            outer = (v0, v0 + timedelta(days=rng.randint(3, 6)))
+            i0 = v0 + timedelta(days=rng.randint(0, 2))
+            inner = (i0, i0 + timedelta(days=rng.randint(1, 2)) if rng.random() < 0.6 else None)
+            if rng.random() < 0.3:
+                inner = (i0, outer[1] + timedelta(days=rng.randint(0, 2)))      # overlapping / ending later
+            pair = [outer, inner]
+            rng.shuffle(pair)
+            (vac if rng.random() < 0.7 else gl).extend(pair)
         p = Proj(start=start, G=G, length="+3w", alap=alap, vac=vac, gleaves=gl)
         rs = []
         for k in range(rng.randint(1, 3)):
@@ -621,16 +643,24 @@ def limits_profile(rng, n):
         p = Proj(start=start, G=G, length=length)
         grp = p.add_res("g") if rng.random() < 0.5 else None
         if grp is not None and rng.random() < 0.7:
-            grp.limits.append((rng.choice(["d", "w"]), 3600 * rng.choice([4, 6, 10, 20])))
+            grp.limits.append((rng.choice(["d", "w"]), 3600 * rng.choice([3, 4, 5, 6, 7, 9, 10, 20])))
+        subs = []
+        if grp is not None and rng.random() < 0.5:
+            # sub-groups: the limit of `g` then sits two levels above the people
+            subs = [p.add_res("sg%d" % k, parent=grp) for k in range(rng.randint(1, 2))]
+            for sg in subs:
+                if rng.random() < 0.3:
+                    sg.limits.append((rng.choice(["d", "w"]), 3600 * rng.choice([3, 5, 8, 16])))
         rs = []
-        for k in range(rng.randint(1, 3)):
+        for k in range(rng.randint(1, 3) + (1 if subs else 0)):
             lim = []
-            if rng.random() < 0.6:
+            if rng.random() < (0.3 if subs else 0.6):
                 kind = rng.choice(["d", "d", "w"])
                 val = rng.choice([2, 3, 4, 6, 6.5, 2.5]) * 3600 if kind == "d" else rng.choice([8, 10, 16, 20, 12.5]) * 3600
                 lim.append((kind, int(val)))
             hours = std_hours(540, 1020, range(7)) if rng.random() < 0.4 else None
-            rs.append(p.add_res("r%d" % k, parent=grp if (grp and rng.random() < 0.8) else None, limits=lim, hours=hours))
+            par = (subs[k % len(subs)] if subs else grp) if (grp and rng.random() < 0.8) else None
+            rs.append(p.add_res("r%d" % k, parent=par, limits=lim, hours=hours))
         cont = p.add_task("c") if rng.random() < 0.5 else None
         if cont is not None and rng.random() < 0.6:
             cont.limits.append((rng.choice(["d", "w"]), 3600 * rng.choice([3, 5, 8, 12]), rng.choice([None, None, rng.choice(rs)])))
@@ -638,15 +668,39 @@ def limits_profile(rng, n):
         for k in range(rng.randint(1, 5)):
             r = rng.choice(rs)
             effort = 3600 * rng.randint(2, 40)
+            if rng.random() < 0.3:
+                effort = 900 * rng.randint(3, 70)        # ends inside a slot: the successor starts there on its own resource
             lim = []
             if rng.random() < 0.25:
                 lim.append((rng.choice(["d", "w"]), 3600 * rng.choice([2, 4, 10]), None))
             deps = [(rng.choice(ts), False, 0)] if ts and rng.random() < 0.4 else []
             team = [r]
-            if len(rs) > 1 and rng.random() < 0.3:
+            if len(rs) > 1 and rng.random() < (0.5 if subs else 0.3):
                 team = rng.sample(rs, rng.randint(2, len(rs)))
             ts.append(p.add_task("t%d" % k, parent=cont if (cont and rng.random() < 0.7) else None, effort=effort,
                                  alloc=team, deps=deps, limits=lim, prio=rng.choice([None, 300, 700])))
+        if rng.random() < 0.3:
+            # hand-over inside a slot: `use` exhausts today's allowance of a limited resource, `pre` ends inside a slot on
+            # another resource, `post` continues on the limited resource from that instant (it has to wait for a new period)
+            lim_r = rng.choice([r for r in rs if r.limits] or rs)
+            free = p.add_res("free")
+            hrs = max([v for k, v in lim_r.limits if k == "d"] + [0]) // 3600 or rng.choice([2, 3, 4])
+            p.add_task("use", effort=3600 * hrs, alloc=[lim_r], prio=950)
+            pre = p.add_task("pre", effort=900 * rng.choice([5, 7, 13, 17, 18, 21]), alloc=[free], prio=940)
+            p.add_task("post", effort=900 * rng.choice([1, 2, 3, 6, 9]), alloc=[lim_r], prio=930, deps=[(pre, False, rng.choice([0, 0, 900]))])
+        if rng.random() < 0.25:
+            # department -> group -> person: a budget two levels above a team whose members sit in different groups
+            # (room for some members only must mean room for nobody)
+            dept = p.add_res("dept", limits=[(rng.choice(["d", "d", "w"]), 3600 * rng.choice([3, 5, 7, 9]))])
+            g1, g2 = p.add_res("fe", parent=dept), p.add_res("be", parent=dept)
+            m1, m2 = p.add_res("ann", parent=g1), p.add_res("bob", parent=g2)
+            mates = [m1, m2]
+            if rng.random() < 0.4:
+                mates.append(p.add_res("cyd", parent=rng.choice([g1, g2])))
+            if rng.random() < 0.4:
+                p.add_task("upkeep", effort=3600 * rng.choice([1, 3]), alloc=[rng.choice(mates)], prio=900,
+                           limits=[("d", 3600, None)] if rng.random() < 0.5 else [])
+            p.add_task("pair", effort=3600 * rng.randint(3, 12), alloc=rng.sample(mates, rng.randint(2, len(mates))), prio=rng.choice([None, 800]))
         out.append(("lim%04d" % i, p))
     return out
 
@@ -753,7 +807,7 @@ def teams_alts(rng, n):
                 alloc = rng.sample(rs, rng.randint(2, min(3, len(rs))))
             elif mode < 0.7:
                 others = [r for r in rs if r is not alloc[0]]
-                alt = [rng.choice(others)]
+                alt = rng.sample(others, rng.randint(1, len(others))) if rng.random() < 0.5 else [rng.choice(others)]
             deps = [(rng.choice(ts), False, rng.choice([0, 0, G // 2 if (G // 2) % 60 == 0 else 0]))] if ts and rng.random() < 0.5 else []
             lim = [("d", 3600 * rng.choice([3, 5, 7]), None)] if (len(alloc) > 1 and rng.random() < 0.3) else []
             ts.append(p.add_task("t%d" % k, effort=effort, alloc=alloc, alt=alt, deps=deps, prio=rng.choice([None, 300, 700]), limits=lim))
@@ -1037,12 +1091,14 @@ def infeasible(rng, n):
         never = p.add_res("never", leaves=[(start, start + timedelta(days=900))])
         grp = p.add_res("grp")
         p.add_res("m0", parent=grp)
+        room = p.add_res("room")
+        room.eff_text = rng.choice(["0.0", "0"])       # a room / licence: the implementation treats efficiency 0 as 1 (D19)
         ts = []
         nt = rng.randint(2, 6)
         cont = p.add_task("box") if rng.random() < 0.4 else None
         for k in range(nt):
             kind = rng.choice(["plain", "plain", "never", "zero", "huge", "noalloc", "late", "early_end", "late_end", "ms", "group", "preleave",
-                               "alt_never", "alt_huge", "alt_late"])
+                               "alt_never", "alt_huge", "alt_late", "room", "room_alt", "alt_room", "room_team"])
             kw = dict(effort=G * rng.randint(1, 9), alloc=[rng.choice(rs)])
             if kind == "never":
                 kw["alloc"] = [never]
@@ -1074,6 +1130,17 @@ def infeasible(rng, n):
             elif kind == "preleave":
                 pre = p.add_res("pre%d" % k, leaves=[(start - timedelta(days=rng.choice([3, 40, 700])), start + timedelta(days=rng.choice([1, 3])))])
                 kw["alloc"] = [pre]
+            elif kind == "room":
+                kw["alloc"] = [room]
+            elif kind == "room_alt":
+                kw["alloc"] = [room]
+                kw["alt"] = [rng.choice(rs)]
+            elif kind == "alt_room":
+                kw["alt"] = [room] if rng.random() < 0.5 else [rng.choice(rs), room]
+            elif kind == "room_team":
+                kw["alloc"] = [rng.choice(rs), room]
+                if rng.random() < 0.5:
+                    kw["flags"] = ["contiguous"] if False else []
             elif kind == "ms":
                 kw = dict(effort=0, alloc=[], milestone=True)
             elif kind == "group":
@@ -1178,6 +1245,35 @@ def dup_leaf_ids(rng, n):
         out.append(("dup%04d" % i, p))
     return out
 
+
+
+def dup_alap(rng, n):
+    """C08 / C04 backward mode: leaves with the same local id under different containers, each with a successor
+    of its own at a different time; confusing local ids for full ids moves a namesake's deadline."""
+    out = []
+    for i in range(n):
+        G = rng.choice([3600, 1800])
+        start = datetime(2025, 2, 3)
+        proj_alap = rng.random() < 0.6
+        p = Proj(start=start, G=G, length="+8w", alap=proj_alap)
+        rs = [p.add_res("r%d" % k) for k in range(rng.randint(2, 4))]
+        names = rng.sample(["build", "test", "pack"], rng.randint(1, 2))
+        conts = [p.add_task(c) for c in rng.sample(["alpha", "beta", "gamma", "delta"], rng.randint(2, 3))]
+        for j, c in enumerate(conts):
+            r = rs[j % len(rs)]
+            prev = None
+            for nm in names:
+                t = p.add_task(nm, parent=c, effort=G * rng.randint(2, 20), alloc=[r], mode=None if proj_alap else "alap",
+                               deps=[(prev, False, rng.choice([0, 0, G, 4 * G]))] if prev is not None else [])
+                prev = t
+            ship = p.add_task("ship", parent=c, effort=G * rng.randint(1, 6), alloc=[rng.choice(rs)], mode=None if proj_alap else "alap",
+                              deps=[(prev, False, rng.choice([0, G, 8 * G]))])
+            if rng.random() < 0.3:
+                ship.deps = []
+                prev.precedes.append(ship)
+            ship.end = start + timedelta(days=rng.choice([9, 16, 23, 30, 37]) + j, hours=rng.choice([9, 12, 17]))
+        out.append(("dupalap%04d" % i, p))
+    return out
 
 
 def container_gate(rng, n):
